@@ -241,7 +241,14 @@ def handleComments (id : String) (xs : List Sx) : String :=
     | _ => none)
   let survivors := changes.foldl (fun cs ivs => filterComments ivs cs) comments
   let texts := (survivors.map (·.text)).foldr insertStr []
-  s!"(res {id} (survivors{String.join (texts.map (fun t => " " ++ q t))}))"
+  -- declarations in which the engine model rewrote nothing (appended by the check from the engine stream)
+  let untouched : List Extent := (Sx.field xs "untouched").filterMap (fun c => match c with
+    | .list [a, b] => some { s := a.asNat, e := b.asNat }
+    | _ => none)
+  let resp := match changes.findSome? (fun ivs => offender ivs untouched) with
+    | none => " (respects 1)"
+    | some (i, x) => s!" (respects 0 {i.s} {i.e} {x.s} {x.e})"
+  s!"(res {id} (survivors{String.join (texts.map (fun t => " " ++ q t))}){resp})"
 
 def handleLine (sc : Option Schema) (line : String) : String :=
   match Sx.ofString line with
